@@ -27,6 +27,9 @@ type c35Entry struct {
 }
 
 func c35Gen(rng *core.Rng, tier string) *harness.Plan {
+	if rng.Chance(0.12) {
+		return c35ClusterGen(rng, tier)
+	}
 	p := &harness.Plan{Seed: rng.Uint64(), Params: map[string]int64{}}
 	n := 30 + rng.IntN(100)
 	if tier == "thorough" {
@@ -63,6 +66,9 @@ func c35Gen(rng *core.Rng, tier string) *harness.Plan {
 }
 
 func c35Exec(p *harness.Plan) *harness.Outcome {
+	if p.P("rig", 0) == 1 {
+		return c35ClusterExec(p)
+	}
 	c := newCtx("C35")
 	f, err := storerig.NewFix(7)
 	if err != nil {
@@ -190,9 +196,9 @@ func init() {
 		ID:    "C35",
 		Level: "exploration",
 		Rule: "seeded sequences of finalized snapshot writes (7 chains, 1-3 transactions, positions +1 or gaps), cursor listings (random offset/count incl. around the 500 limit), hash look-ups, last-snapshot reads and restarts, compared with an ordered-list model; " +
-			"plus cluster runs where the kernel assigns positions (see evidence key cluster_*); non-trivial = at least one write and one listing; distinct = canonical-log digests",
-		Components: r3Components,
-		Assume:     r3Assume,
+			"about one run in eight is a cluster run (7-9 real nodes, bursts, network faults, crash at step and Store-call boundaries) in which the kernel's own counter assigns the positions while several chain loops finalize: every assigned position must exceed all earlier ones of that node across restarts, and paged cursor sweeps of every node's index (random page sizes) must be ascending, complete, and agree with the look-up by hash and with the counter (evidence probes cluster_*); non-trivial = at least one write and one listing; distinct = canonical-log digests",
+		Components: mergeComponents(r3Components, clusterComponents),
+		Assume:     append(append([]string{}, r3Assume...), clusterAssume...),
 		Gen:        c35Gen,
 		Exec:       c35Exec,
 		QuickRuns:  300, ThoroughRuns: 6000,
